@@ -168,6 +168,26 @@ pub fn enumerate(n_max: usize, stride_last: usize) -> Vec<Decl> {
             out.extend(tail.into_iter().enumerate().filter(|(k, _)| k % stride_last == 0).map(|x| x.1));
         }
     }
+    // names whose concatenation is ambiguous: the paths A/B and AB (and A/BC, AB/C) are different paths
+    {
+        let id = |s: &str| DPart::Ident(s.to_string());
+        let v = |name: &str, ty: Ty, idv: u64, path: Vec<DPart>| DVar { name: name.to_string(), ty, id: idv, path };
+        out.push(Decl { vars: vec![
+            v("A", Ty::Master, 0xa1, vec![]),
+            v("B", Ty::Master, 0xa2, vec![id("A")]),
+            v("AB", Ty::Master, 0xa3, vec![]),
+            v("X", Ty::U, 0xa4, vec![id("A"), id("B")]),
+            v("Y", Ty::U, 0xa5, vec![id("AB")]),
+        ] });
+        out.push(Decl { vars: vec![
+            v("A", Ty::Master, 0xa1, vec![]),
+            v("BC", Ty::Master, 0xa2, vec![id("A")]),
+            v("AB", Ty::Master, 0xa3, vec![]),
+            v("C", Ty::Master, 0xa6, vec![id("AB")]),
+            v("X", Ty::S, 0xa4, vec![id("AB"), id("C")]),
+            v("Y", Ty::B, 0xa5, vec![id("A"), id("BC")]),
+        ] });
+    }
     // the order of the variants carries no meaning: every second declaration lists its variants in reverse, so that
     // children are declared before the masters their paths name
     for (k, d) in out.iter_mut().enumerate() {
